@@ -398,12 +398,16 @@ func (r *Realm) parseLines(name string, lines []string) (err error) {
 		case "default_domain":
 			r.DefaultDomain = v
 		case "kdc":
-			if !strings.Contains(v, ":") {
+			if h := strings.TrimSpace(strings.TrimSuffix(v, `*`)); !hasPort(h) {
 				// No port number specified default to 88
+				if strings.Contains(h, ":") && !strings.HasPrefix(h, "[") {
+					// an IPv6 address without brackets
+					h = "[" + h + "]"
+				}
 				if strings.HasSuffix(v, `*`) {
-					v = strings.TrimSpace(strings.TrimSuffix(v, `*`)) + ":88*"
+					v = h + ":88*"
 				} else {
-					v = strings.TrimSpace(v) + ":88"
+					v = h + ":88"
 				}
 			}
 			appendUntilFinal(&r.KDC, v, &KDCFinal)
@@ -421,6 +425,14 @@ func (r *Realm) parseLines(name string, lines []string) (err error) {
 		}
 	}
 	return
+}
+
+// hasPort reports whether a host value ends in a port number. The colons of an IPv6 address ("[::1]", "::1") are not one.
+func hasPort(h string) bool {
+	if strings.HasPrefix(h, "[") {
+		return strings.Contains(h, "]:")
+	}
+	return strings.Count(h, ":") == 1
 }
 
 // Parse the lines of the [realms] section of the configuration into an slice of Realm structs.
